@@ -42,6 +42,9 @@ type Case struct {
 	Cancels []Cancel `json:"cancels"`
 	Slow    int      `json:"slow"` // index of a slow reader, -1 none
 	Hook    string   `json:"hook"` // "" | delete | overwrite : action at the hand-over point of the first request to get there
+	// IfRangeAlone: every one of the identical GETs carries an If-Range and no Range. Without a Range the field
+	// means nothing (RFC 9110 13.1.5): they are ordinary GETs and share a fetch like any others
+	IfRangeAlone string `json:"if_range_alone,omitempty"`
 }
 
 type result struct {
@@ -52,8 +55,15 @@ type result struct {
 	nonce     string
 }
 
+func extraHeaders(c Case) []px.H {
+	if c.IfRangeAlone == "" {
+		return nil
+	}
+	return []px.H{{K: "If-Range", V: c.IfRangeAlone}}
+}
+
 var sub = ev.Register("coalescing",
-	"N in [2,12] identical GETs released together (the origin holds its answer until all are in flight) on a cold, fresh, stale->304 or stale->200 key, with a cacheable / no-store / 404 / 500 outcome, bodies up to 4 MiB, a disconnect plan (any clients, explicitly including the flight leader; while the origin is held, after the header, mid-body), an optional slow reader and an optional entry delete/overwrite at the hand-over yield point; oracle: cacheable => at most one origin fetch (one revalidation) for the resource in the window, every client that did not hang up gets 200 and a complete verified body of one version; not cacheable => every client gets a complete response of its own (nonces pairwise distinct); nobody gets a 5xx the origin did not send; non-trivial = coalesced_requests rose; distinct by (state, outcome, cancel pattern, hook action, transport, backend)",
+	"N in [2,12] identical GETs (optionally all carrying an If-Range without a Range, which means nothing) released together (the origin holds its answer until all are in flight) on a cold, fresh, stale->304 or stale->200 key, with a cacheable / no-store / 404 / 500 outcome, bodies up to 4 MiB, a disconnect plan (any clients, explicitly including the flight leader; while the origin is held, after the header, mid-body), an optional slow reader and an optional entry delete/overwrite at the hand-over yield point; oracle: cacheable => at most one origin fetch (one revalidation) for the resource in the window, every client that did not hang up gets 200 and a complete verified body of one version; not cacheable => every client gets a complete response of its own (nonces pairwise distinct); nobody gets a 5xx the origin did not send; non-trivial = coalesced_requests rose; distinct by (state, outcome, cancel pattern, hook action, transport, backend)",
 	func(c Case, o *ev.Obs) *ev.Failure {
 		site := origin.NewSite()
 		mkVersion := func(v int) origin.Version {
@@ -189,7 +199,7 @@ var sub = ev.Register("coalescing",
 					close(lateGo)
 				}
 				<-lateGo
-				resp, err := env.Via(c.Transport, px.Req{Method: "GET", Host: org.Addr(), Target: "/c", ReqID: fmt.Sprintf("late%d", i)})
+				resp, err := env.Via(c.Transport, px.Req{Method: "GET", Host: org.Addr(), Target: "/c", ReqID: fmt.Sprintf("late%d", i), Headers: extraHeaders(c)})
 				if err != nil {
 					results[i].err = err
 					return
@@ -205,7 +215,7 @@ var sub = ev.Register("coalescing",
 				var g1 sync.Once
 				gatedOnce := func() { g1.Do(gatedDone.Done) }
 				defer gatedOnce()
-				p, err := env.Start(c.Transport, px.Req{Method: "GET", Host: org.Addr(), Target: "/c", ReqID: id})
+				p, err := env.Start(c.Transport, px.Req{Method: "GET", Host: org.Addr(), Target: "/c", ReqID: id, Headers: extraHeaders(c)})
 				if err != nil {
 					results[i].err = err
 					return
@@ -396,14 +406,15 @@ func waitOrTimeout(wg *sync.WaitGroup, d time.Duration) {
 
 func drawCase(t *rapid.T) Case {
 	c := Case{
-		Backend:   rapid.SampledFrom([]string{"memory", "file"}).Draw(t, "backend"),
-		Transport: rapid.SampledFrom([]string{"plain", "plain", "tunnel"}).Draw(t, "transport"),
-		N:         rapid.IntRange(2, 12).Draw(t, "n"),
-		State:     rapid.SampledFrom([]string{"cold", "cold", "fresh", "stale304", "stale200"}).Draw(t, "state"),
-		Outcome:   rapid.SampledFrom([]string{"cacheable", "cacheable", "cacheable", "no-store", "404", "500"}).Draw(t, "outcome"),
-		BodyLen:   rapid.SampledFrom([]int{10, 3000, 70000, 1 << 20, 4 << 20}).Draw(t, "len"),
-		Slow:      -1,
-		Hook:      rapid.SampledFrom([]string{"", "", "delete"}).Draw(t, "hook"),
+		Backend:      rapid.SampledFrom([]string{"memory", "file"}).Draw(t, "backend"),
+		Transport:    rapid.SampledFrom([]string{"plain", "plain", "tunnel"}).Draw(t, "transport"),
+		N:            rapid.IntRange(2, 12).Draw(t, "n"),
+		State:        rapid.SampledFrom([]string{"cold", "cold", "fresh", "stale304", "stale200"}).Draw(t, "state"),
+		Outcome:      rapid.SampledFrom([]string{"cacheable", "cacheable", "cacheable", "no-store", "404", "500"}).Draw(t, "outcome"),
+		BodyLen:      rapid.SampledFrom([]int{10, 3000, 70000, 1 << 20, 4 << 20}).Draw(t, "len"),
+		Slow:         -1,
+		Hook:         rapid.SampledFrom([]string{"", "", "delete"}).Draw(t, "hook"),
+		IfRangeAlone: rapid.SampledFrom([]string{"", "", "", "", `"c5-v1"`, `"some-other-tag"`, "Mon, 02 Jan 2006 15:04:05 GMT"}).Draw(t, "if-range-alone"),
 	}
 	if c.BodyLen >= 1<<20 && rapid.IntRange(0, 2).Draw(t, "big") != 0 {
 		c.BodyLen = 20000
